@@ -188,6 +188,17 @@ func c16(c *wk.Ctx) {
 			idx++
 		}
 	}
+	// a long-lived idle connection (thorough only): after a minute the client pings, the server answers pong and then
+	// stays silent past the client's 65 s read deadline; requests issued afterwards must still complete
+	if !c.Quick() {
+		for k := 0; k < 2; k++ {
+			if c.Mine(idx) {
+				c.Begin(idx, fmt.Sprintf("idle %d", k))
+				c16idle(c, idx, c.Rand(idx), k)
+			}
+			idx++
+		}
+	}
 	// every item twice in a row (state left behind by the first occurrence meets the second)
 	for i := range cat {
 		if c.Mine(idx) {
@@ -357,4 +368,60 @@ func c16plainFrames(e *rpcEnv) int {
 	}
 	e.w.mu.Unlock()
 	return n
+}
+
+func c16idle(c *wk.Ctx, idx int, r *rand.Rand, variant int) {
+	var pings int32
+	e, err := newRPCEnv(c, idx, r, envOpts{
+		Any: func(e *rpcEnv, cn *refserver.Conn, in *mtp.Inner) bool {
+			if u32le0(in.Body) == 0x7abe77ec && len(in.Body) >= 12 { // ping#7abe77ec ping_id:long
+				atomic.AddInt32(&pings, 1)
+				if variant == 0 {
+					pid := int64(leU64(in.Body[4:12]))
+					e.sendService(cn, refserver.Pong(in.MsgID, pid), true, "pong")
+				}
+				return true
+			}
+			return false
+		},
+		Handler: func(e *rpcEnv, p pendingReq, in *mtp.Inner) bool {
+			e.sendGroup(p.conn, [][]byte{e.resultBody(p, wrapOpts{})}, []uint64{p.uid}, false)
+			return true
+		}})
+	if err != nil {
+		c.Viol("C16", idx, "setup", err.Error(), nil)
+		return
+	}
+	defer e.close()
+	used := map[uint64]bool{}
+	probe := func(stage string) bool {
+		var rec callRec
+		uid := uidFor(r, "object", used)
+		if !withTimeout(40*time.Second, func() { rec = e.doCall(0, uid, "object", false) }) {
+			if st, dump := isStalled(); st {
+				c.Viol("C16", idx, "idle/probe-stall/"+stage, "after a long idle period a request never completes and nothing can move", dump)
+			} else {
+				c.Log.Emit(coreInconclusive("c16 idle: probe did not return (" + stage + ")"))
+			}
+			return false
+		}
+		if rec.Panic != "" || rec.Err != "" || !rec.OK {
+			c.Viol("C16", idx, "idle/probe-failed/"+stage, fmt.Sprintf("panic=%q err=%q got=%q", rec.Panic, rec.Err, rec.Got), nil)
+			return false
+		}
+		return true
+	}
+	if !probe("before") {
+		return
+	}
+	time.Sleep(62 * time.Second) // the keep-alive ticker fires at 60 s
+	c.Count("idle.pings_seen", int64(atomic.LoadInt32(&pings)))
+	if !probe("after-first-ping") {
+		return
+	}
+	time.Sleep(70 * time.Second) // silence beyond the 65 s read deadline
+	if !probe("after-read-deadline") {
+		return
+	}
+	c.Distinct("idle", variant, atomic.LoadInt32(&pings) > 0)
 }
